@@ -113,6 +113,15 @@ Theorem C19_progress_step : forall s p n, reachable s ->
 Proof. exact progress_step. Qed.
 Print Assumptions C19_progress_step.
 
+(* Tie between the correspondence check and the theorems: the replayer that reconstructs a model
+   execution from the implementation's event log (Model.Fetch.replay_step, used by run_case) only
+   takes steps of the model, so every quiescent state the implementation is compared with is a
+   reachable state, to which all theorems above apply. *)
+Theorem C19_replay_states_reachable : forall s np nr x s' b,
+  reachable s -> replay_step s np nr x = ROk s' b -> reachable s'.
+Proof. exact replay_step_reachable. Qed.
+Print Assumptions C19_replay_states_reachable.
+
 (* override_documented: "concurrent calls for the same resource number are unsupported - second call
    will override the first call".  Two requesters for block 5 can knock each other out of the queue
    forever without any peer ever being involved: after each cycle both are where they were, with
